@@ -59,6 +59,14 @@ class Point(SubclassJSONSerializer):
         return cls(x=data["x"])
 
 
+class Shelf:
+    """namespace class: its inner class is a serialisable class that is NOT an attribute of the module"""
+
+    @dataclass
+    class Slot(Box):
+        """reachable as jsonmodels.Shelf.Slot, __qualname__ 'Shelf.Slot'"""
+
+
 class Foreign:
     """a third-party style type (no serializer base); registered below"""
 
